@@ -322,13 +322,10 @@ def maxLength (fmt typ : Str) : R Int := do
   pure (if typ = sDecimal then length + 1 else length)
 
 /-- `_pad_value(fmt, _type, value)` -/
-def padValue (fmt typ value : Str) : R Str := do
-  if typ = sDecimal ∨ typ = sInt then
-    let l ← maxLength fmt typ
-    pure (Py.rjust value l [48])
-  else
-    let l ← maxLength fmt typ
-    pure (Py.ljust value l [32])
+def padValue (fmt typ value : Str) : R Str :=
+  match maxLength fmt typ with
+  | .error e => .error e
+  | .ok l => if typ = sDecimal ∨ typ = sInt then .ok (Py.rjust value l [48]) else .ok (Py.ljust value l [32])
 
 /-! ## `strptime` -/
 
@@ -523,32 +520,50 @@ def runValidator (env : Env) (ai : Str) (v : GsVal) : R Unit :=
 
 /-! ## `info` -/
 
+/-- the value part: `number[:_max_length(...)]`, or up to the first separator for a variable-length value -/
+def valueOf (sep : Str) (fnc1 : Bool) (l : Int) (number : Str) : Str :=
+  let value := Py.slice number none (some l)
+  if !sep.isEmpty && fnc1 then
+    let idx := Py.find number sep
+    if idx > 0 then Py.slice number none (some idx) else value
+  else value
+
+/-- `if separator and number.startswith(separator): number = number[len(separator):]` -/
+def skipSep (sep : Str) (number : Str) : Str :=
+  if !sep.isEmpty && Py.startswith number sep then Py.slice number (some sep.length) none else number
+
+/-- the body of the loop after the identifier has been removed from `number` -/
+def infoValue (env : Env) (sep : Str) (ai : Str) (info : Spec.NumDB.Dict) (number : Str) (data : Dict) :
+    R (Str × Dict) :=
+  -- figure out the value part
+  match Py.dictGet info sFormat with
+  | .error e => .error e
+  | .ok fmt =>
+    match Py.dictGet info sType with
+    | .error e => .error e
+    | .ok typ =>
+      match maxLength fmt typ with
+      | .error e => .error e
+      | .ok l =>
+        let value := valueOf sep (fnc1Of info) l number
+        let number := Py.slice number (some value.length) none
+        -- validate the value if we have a custom module for it
+        match runValidator env ai (.str value) with
+        | .error e => .error e
+        | .ok _ =>
+          -- convert the number
+          match decodeValue fmt typ value with
+          | .error e => .error e
+          | .ok v => .ok (skipSep sep number, Py.dictSet data ai v)
+
 /-- one iteration of `while number:`; returns the new `number` and `data` -/
-def infoStep (env : Env) (sep : Str) (number : Str) (data : Dict) : R (Str × Dict) := do
+def infoStep (env : Env) (sep : Str) (number : Str) (data : Dict) : R (Str × Dict) :=
   -- extract the application identifier
-  let (ai, info) ← aiLookup env.db number
-  if info.isEmpty || !Py.startswith number ai then Py.raise .invalidComponent
-  else
-    let number := Py.slice number (some ai.length) none
-    -- figure out the value part
-    let fmt ← Py.dictGet info sFormat
-    let typ ← Py.dictGet info sType
-    let l ← maxLength fmt typ
-    let value := Py.slice number none (some l)
-    let value :=
-      if !sep.isEmpty && fnc1Of info then
-        let idx := Py.find number sep
-        if idx > 0 then Py.slice number none (some idx) else value
-      else value
-    let number := Py.slice number (some value.length) none
-    -- validate the value if we have a custom module for it
-    runValidator env ai (.str value)
-    -- convert the number
-    let v ← decodeValue fmt typ value
-    let data := Py.dictSet data ai v
-    -- skip separator
-    let number := if !sep.isEmpty && Py.startswith number sep then Py.slice number (some sep.length) none else number
-    pure (number, data)
+  match aiLookup env.db number with
+  | .error e => .error e
+  | .ok (ai, info) =>
+    if info.isEmpty || !Py.startswith number ai then Py.raise .invalidComponent
+    else infoValue env sep ai info (Py.slice number (some ai.length) none) data
 
 /-- `while number:` with fuel -/
 def infoLoop (env : Env) (sep : Str) : Nat → Str → Dict → R Dict
@@ -560,11 +575,13 @@ def infoLoop (env : Env) (sep : Str) : Nat → Str → Dict → R Dict
     | .ok (number, data) => infoLoop env sep fuel number data
 
 /-- `info(number, separator)` -/
-def info (env : Env) (sep : Str) (number : Str) : R Dict := do
-  let number ← Gen.gs1_128.compact number
-  -- skip separator
-  let number := if !sep.isEmpty && Py.startswith number sep then Py.slice number (some sep.length) none else number
-  infoLoop env sep (number.length + 1) number []
+def info (env : Env) (sep : Str) (number : Str) : R Dict :=
+  match Gen.gs1_128.compact number with
+  | .error e => .error e
+  | .ok number =>
+    -- skip separator
+    let number := skipSep sep number
+    infoLoop env sep (number.length + 1) number []
 
 /-! ## `encode` -/
 
@@ -584,41 +601,61 @@ def sortedItems (data : Dict) : Dict := Py.sortedBy (fun a b => Py.strLt a.1 b.1
 
 /-- the `for inputai, value in sorted(data.items()):` loop; returns `fixed_values`, `variable_values` -/
 def encodeItems (env : Env) (par : Bool) : Dict → R (List Str × List VarItem)
-  | [] => pure ([], [])
-  | (inputai, value) :: rest => do
-    let (ai, info) ← aiLookup env.db inputai
-    if info.isEmpty then Py.raise .invalidComponent
-    else
-      -- validate the value if we have a custom module for it
-      runValidator env ai value
-      let fmt ← Py.dictGet info sFormat
-      let typ ← Py.dictGet info sType
-      let text ← encodeValue fmt typ value
-      let (fixed, vars) ← encodeItems env par rest
-      -- store variable-sized values separate from fixed-size values
-      if fnc1Of info then pure (fixed, ⟨aiFmt par ai, fmt, typ, text⟩ :: vars)
-      else pure ((aiFmt par ai ++ text) :: fixed, vars)
+  | [] => .ok ([], [])
+  | (inputai, value) :: rest =>
+    match aiLookup env.db inputai with
+    | .error e => .error e
+    | .ok (ai, info) =>
+      if info.isEmpty then Py.raise .invalidComponent
+      else
+        -- validate the value if we have a custom module for it
+        match runValidator env ai value with
+        | .error e => .error e
+        | .ok _ =>
+          match Py.dictGet info sFormat with
+          | .error e => .error e
+          | .ok fmt =>
+            match Py.dictGet info sType with
+            | .error e => .error e
+            | .ok typ =>
+              match encodeValue fmt typ value with
+              | .error e => .error e
+              | .ok text =>
+                match encodeItems env par rest with
+                | .error e => .error e
+                | .ok (fixed, vars) =>
+                  -- store variable-sized values separate from fixed-size values
+                  if fnc1Of info then .ok (fixed, ⟨aiFmt par ai, fmt, typ, text⟩ :: vars)
+                  else .ok ((aiFmt par ai ++ text) :: fixed, vars)
 
 /-- the two list comprehensions over `variable_values[:-1]` and `variable_values[-1:]`, joined -/
 def joinVars (sep : Str) : List VarItem → R Str
-  | [] => pure []
-  | [x] => pure (x.ai ++ x.value)
-  | x :: y :: rest => do
-    let v ← (if !sep.isEmpty then pure x.value else padValue x.fmt x.typ x.value)
-    let tail ← joinVars sep (y :: rest)
-    pure (x.ai ++ v ++ sep ++ tail)
+  | [] => .ok []
+  | [x] => .ok (x.ai ++ x.value)
+  | x :: y :: rest =>
+    match (if !sep.isEmpty then .ok x.value else padValue x.fmt x.typ x.value) with
+    | .error e => .error e
+    | .ok v =>
+      match joinVars sep (y :: rest) with
+      | .error e => .error e
+      | .ok tail => .ok (x.ai ++ v ++ sep ++ tail)
 
 /-- `encode(data, separator, parentheses)` -/
-def encode (env : Env) (sep : Str) (par : Bool) (data : Dict) : R Str := do
-  let (fixed, vars) ← encodeItems env par (sortedItems data)
-  let tail ← joinVars sep vars
-  pure (fixed.flatten ++ tail)
+def encode (env : Env) (sep : Str) (par : Bool) (data : Dict) : R Str :=
+  match encodeItems env par (sortedItems data) with
+  | .error e => .error e
+  | .ok (fixed, vars) =>
+    match joinVars sep vars with
+    | .error e => .error e
+    | .ok tail => .ok (fixed.flatten ++ tail)
 
 /-! ## `validate`, `is_valid` -/
 
 /-- `validate(number, separator)` -/
 def validate (env : Env) (sep : Str) (number : Str) : R Str :=
-  match (do let data ← info env sep number; encode env sep false data) with
+  match (match info env sep number with
+         | .error e => (.error e : R Str)
+         | .ok data => encode env sep false data) with
   | .ok v => .ok v
   | .error e => if e.isValidation then .error e else .error .invalidFormat
 
